@@ -83,6 +83,9 @@ def check(ctx):
     repo = ctx.repo
     from . import generic as _gen
     _gen.language_traps(ctx, _gen.anchor_functions(repo, "C02"), "the property holds for every input, on every call")
+    _gen.bool_mask_dtype(ctx, _gen.module_functions(repo, "dataiter.data_frame"),
+                         "filter / filter_out accept an empty mask on a zero-row frame")
+    _gen.total_functions(ctx, ["dataiter.data_frame.DataFrame.drop_na"])
     from . import generic
     generic.cross_column_promotion(ctx, [repo.fn(f"{DF}.unique")], "unique keeps one row per distinct combination of key values")
     generic.order_by_difference(ctx, generic.module_functions(repo, "dataiter.data_frame"),
@@ -260,6 +263,26 @@ def check(ctx):
             ok = isinstance(rep, ast.Constant) and rep.value is False
             ctx.ob("SIB-3", fn, "replace=False", c, ok, "no row is drawn twice" if ok else
                    "sampling with replacement can return the same input row twice", nontrivial=False)
+    # the boolean-row parser converts its argument WITH the bool dtype stated (an empty list would otherwise be float64 and
+    # be rejected or mis-indexed), and drop_na looks at exactly the columns it was given
+    prb = repo.functions.get(f"{DF}._parse_rows_from_boolean")
+    if prb is not None and len(prb.params) > 1:
+        convs = [c for _, c in calls_in(prb) if isinstance(c.func, ast.Attribute) and c.func.attr in ("fast", "as_boolean", "astype")
+                 and ((c.args and norm(c.args[0]) == prb.params[1]) or norm(c.func.value) == prb.params[1])]
+        okb = bool(convs) and all(c.func.attr == "as_boolean" or any(norm(a) in ("bool", "np.bool_") for a in list(c.args[1:]) + [k.value for k in c.keywords])
+                                  or (c.func.attr == "astype" and c.args and norm(c.args[0]) in ("bool", "np.bool_")) for c in convs)
+        ctx.ob("LEN", prb, norm(convs[0]) if convs else "Vector.fast(rows, bool)", convs[0] if convs else prb.node, okb,
+               "the mask is converted to bool explicitly" if okb else
+               "the mask is converted without stating bool: an empty list (the mask of a zero-row frame) is inferred as float64",
+               clause="filter / filter_out accept every boolean mask of the frame's length, zero included")
+    dna = repo.functions.get(f"{DF}.drop_na")
+    if dna is not None and dna.vararg:
+        for lp in [n for n in body_nodes(dna.node) if isinstance(n, ast.For) and isinstance(n.iter, ast.Name) and n.iter.id == dna.vararg]:
+            given = all(d.kind == "param" for d in defs_reaching(dna, dna.vararg, lp.iter))
+            ctx.ob("SIB-2", dna, f"for ... in {dna.vararg}: the names as given", lp, given,
+                   "exactly the named columns are inspected" if given else
+                   f"{dna.vararg} is rebound before the loop: with no names given the method inspects other columns than the (empty) set it was "
+                   f"asked about and drops rows", clause="drops exactly the rows having a missing value in a named column")
     # ------------------------------------------------------- GRD-sentinel
     uq = repo.fn(f"{DF}.unique")
     reps = [c for f, c in calls_in(uq) if isinstance(c.func, ast.Attribute) and c.func.attr == "replace_na"]
